@@ -738,7 +738,7 @@ func (e *Eng) loopFrame(n ast.Node) ([]string, bool) {
 				full = true
 				return true
 			}
-			con := e.contracts.ByKey[key]
+			con := e.contracts.lookup(key, e.declPkg())
 			if con != nil && con.HasFrame {
 				entries = append(entries, con.Modifies...)
 			} else {
